@@ -298,26 +298,28 @@ def isInterrupt (op : SOp) (tab : SymTab) : Bool :=
     | none => false
   else false
 
+/-- one iteration of the main loop of `typecheck`: (symbol table, messages, has code been seen) -/
+def tcStep (st : CSettings) (s : SymTab × Msgs × Bool) (op : SOp) : SymTab × Msgs × Bool :=
+  let assemblyOnly := st.mode == .assemble
+  let (tab, m, seenCode) := s
+  let m := m.extend (typecheckOp op tab assemblyOnly)
+  let (m, seenCode) :=
+    if op.cls.isDataOp then (if seenCode then m.err "data statement after code" op.loc else m, seenCode)
+    else (m, true)
+  let m := if !st.allow_interrupts && isInterrupt op tab then m.err s!"hera-py does not support {op.cls.pyName}" op.loc else m
+  let m := if st.no_debug_ops && op.cls.isDebuggingOp then
+    m.err "debugging instructions disallowed with --no-debug-ops flag" op.loc else m
+  let tab := match looksLikeConstant op tab with
+    | some (k, v) => tab.set k (.const (if outOfRange v then 0 else v))
+    | none => tab
+  (tab, m, seenCode)
+
 /-- `typecheck` -/
 def typecheck (prog : List SOp) (st : CSettings) : SymTab × Msgs :=
   let m0 := checkSymbolRedeclaration prog
   let (tab0, lm) := getLabels prog st
   let m0 := m0.extend lm
-  let assemblyOnly := st.mode == .assemble
-  let step (s : SymTab × Msgs × Bool) (op : SOp) : SymTab × Msgs × Bool :=
-    let (tab, m, seenCode) := s
-    let m := m.extend (typecheckOp op tab assemblyOnly)
-    let (m, seenCode) :=
-      if op.cls.isDataOp then (if seenCode then m.err "data statement after code" op.loc else m, seenCode)
-      else (m, true)
-    let m := if !st.allow_interrupts && isInterrupt op tab then m.err s!"hera-py does not support {op.cls.pyName}" op.loc else m
-    let m := if st.no_debug_ops && op.cls.isDebuggingOp then
-      m.err "debugging instructions disallowed with --no-debug-ops flag" op.loc else m
-    let tab := match looksLikeConstant op tab with
-      | some (k, v) => tab.set k (.const (if outOfRange v then 0 else v))
-      | none => tab
-    (tab, m, seenCode)
-  let (tab, m, _) := prog.foldl step (tab0, m0, false)
+  let (tab, m, _) := prog.foldl (tcStep st) (tab0, m0, false)
   (tab, m)
 
 /-- `substitute_label`: every symbol token becomes the integer it stands for (KeyError cannot happen after typecheck) -/
